@@ -195,6 +195,9 @@ class PathSens:
         b = self.body
         if key[0] == "v":
             l = key[1]
+            cd = env.get(("cd", l))
+            if cd is not None:
+                self._learn(env, ("c", cd), val, depth + 1)
             rel = env.get(("rel", l))
             if rel is not None and val in (0, 1):
                 # path-local relation recorded when a multi-definition bool was assigned from a value not yet known
@@ -446,6 +449,10 @@ class PathSens:
                     self._kill_local(env, dl)
                 env.pop(("c", bi), None)
                 env.update(new)
+                # a multi-definition bool written by a tracked call: remember which call defined it on this path, so that a
+                # later test of the local refines that call's status
+                if not t["dest"].get("p") and dl not in self.single and self.body.local_ty(dl) == "bool" and self._tracked_call(t):
+                    env[("cd", dl)] = bi
                 out.append((t["target"], env, None))
         elif k == "switch":
             d = t["discr"]
